@@ -76,9 +76,7 @@ func checkFp[E comparable, F arith.Fp[E]](t *rapid.T, fd *field[E, F]) {
 	case "Sqr", "Inv", "AddAssign", "SubAssign", "MulAssign":
 		alias = kit.DrawAlias2(t)
 	case "IsEqual":
-		if rapid.Bool().Draw(t, "same") {
-			yv, yc = xv, xc
-		}
+		yv, yc = f.DrawSecond(t, xv, xc, "y2")
 	}
 	if alias == kit.AliasXY || alias == kit.AliasAll {
 		yv, yc = xv, xc
@@ -500,6 +498,14 @@ func TestC12Prio(t *testing.T) {
 	var b fp128.Fp
 	f64 := &field[fp64.Fp, *fp64.Fp]{f: &kit.F{Name: "prio.fp64", P: p64, Bits: 64, C: 1 << 32, Reduced: true, R: kit.Pow2(64)}, size: fp64.Size, numRoots: 32, order: a.Order()}
 	f128 := &field[fp128.Fp, *fp128.Fp]{f: &kit.F{Name: "prio.fp128", P: p128, Bits: 128, C: 28, Reduced: true, R: kit.Pow2(128)}, size: fp128.Size, numRoots: 66, order: b.Order()}
+	t.Run("sweep", func(t *testing.T) {
+		kit.SweepPredicates(t, &kit.Preds[fp64.Fp]{F: f64.f, Type: "prio.fp64", Backend: "go", From: f64.from,
+			IsZero: func(x *fp64.Fp) bool { return x.IsZero() }, IsOne: func(x *fp64.Fp) bool { return x.IsOne() },
+			IsEqual: func(x, y *fp64.Fp) bool { return x.IsEqual(y) }})
+		kit.SweepPredicates(t, &kit.Preds[fp128.Fp]{F: f128.f, Type: "prio.fp128", Backend: "go", From: f128.from,
+			IsZero: func(x *fp128.Fp) bool { return x.IsZero() }, IsOne: func(x *fp128.Fp) bool { return x.IsOne() },
+			IsEqual: func(x, y *fp128.Fp) bool { return x.IsEqual(y) }})
+	})
 	t.Run("fp64", func(t *testing.T) {
 		vlib.Check(t, vlib.N(15000, 150000), func(t *rapid.T) { checkFp(t, f64) })
 	})
